@@ -324,6 +324,7 @@ def eval_hashseed(case, scratch):
     violations = []
     digests = {}
     probe = {}
+    ties = None
     for hs in case['hash_seeds']:
         env = dict(os.environ)
         env['PYTHONHASHSEED'] = str(hs)
@@ -341,6 +342,7 @@ def eval_hashseed(case, scratch):
             continue
         out = json.loads(last[-1])
         probe[hs] = out.pop('probe')
+        ties = out.pop('ties', None)
         digests[hs] = out
     seeds = sorted(digests, key=str)
     for hs in seeds[1:]:
@@ -356,6 +358,7 @@ def eval_hashseed(case, scratch):
             'evaluations': len(case['hash_seeds']),
             'outcomes': [f'probe-orders:{orders}'],
             'extra': {'hash_seed_runs': len(seeds),
+                      'hash_seed_vote_ties_above_leaf_level': ties,
                       'hash_seed_distinct_set_orders': orders},
             'sample': {'kind': 'hash-seed sweep', 'seeds': seeds,
                        'distinct iteration orders of a 4-string probe set':
